@@ -23,6 +23,8 @@ type C07Case struct {
 	// (children are numbered per species, organisms are renumbered after every epoch)
 	IdA int `json:"id_a"`
 	IdB int `json:"id_b"`
+	// Thr: the compatibility threshold carried by the same options object; the distance is not a function of it
+	Thr float64 `json:"compat_threshold"`
 }
 
 func genMutNum() *rapid.Generator[float64] {
@@ -126,6 +128,7 @@ func GenC07() *rapid.Generator[C07Case] {
 			c.A, c.B = c.B, c.A
 		}
 		c.IdA, c.IdB = rapid.IntRange(0, 3).Draw(t, "id a"), rapid.IntRange(0, 3).Draw(t, "id b")
+		c.Thr = rapid.OneOf(rapid.Just(0.0), rapid.Float64Range(0.01, 5), rapid.Float64Range(1, 100)).Draw(t, "threshold")
 		return c
 	})
 }
@@ -160,7 +163,10 @@ func CheckC07(c C07Case, rec *Rec) error {
 	if c.IdA == c.IdB {
 		rec.Class("both genomes carry the same id")
 	}
-	opts := &neat.Options{ExcessCoeff: c.Excess, DisjointCoeff: c.Disjoint, MutdiffCoeff: c.Mutdiff}
+	opts := &neat.Options{ExcessCoeff: c.Excess, DisjointCoeff: c.Disjoint, MutdiffCoeff: c.Mutdiff, CompatThreshold: c.Thr, PopSize: 10, DropOffAge: 15}
+	if c.Thr > 0 {
+		rec.Class("options carry a positive compatibility threshold")
+	}
 	e, d, m, w := RefCompatParts(c.A, c.B)
 	ref := c.Excess*float64(e) + c.Disjoint*float64(d) + c.Mutdiff*w
 
